@@ -133,6 +133,13 @@ def r1(cx):
                     const = [T_const_variant(f, x) for x in a]
                     if "Push" in const:
                         pol = g.truth
+                # `match action.event { Push => .., _ => .. }`
+                if rr[0] == "discr" and (rr[2] or "").endswith("EventAction"):
+                    vs_ = discr_variants(m, g)
+                    if vs_ == {"Push"}:
+                        pol = True
+                    elif vs_ and "Push" not in vs_ and len(vs_) >= 8:
+                        pol = False
             want = (name == "Step")
             cx.ob("C05.R1", "kind:%s:event" % name, pol is want,
                   "`is_kind(%s)` is required exactly when the action %s push" % (name, "is" if want else "is not"), c.loc)
@@ -169,6 +176,15 @@ def r1(cx):
                   key_source=root_str(src[0]) if src else None)
     if not ck:
         cx.ob("C05.R1", "outputs:required", False, "no declared-output check found in do_action", f.loc())
+    # what `node.outputs()` hands to that check is the whole declared list: a filter in the accessor ("only the outputs
+    # declared without a value") takes keys out of the admission check
+    flt = []
+    accs = [g_ for q_, g_ in m.fns.items() if re.search(r"tree::node::(Node|NodeContent)::outputs(::\{closure#\d+\})*$", q_)]
+    for g_ in accs:
+        flt += [c_ for c_ in g_.calls() if re.search(r"Iterator(>)?::(filter|filter_map|skip|take|skip_while|take_while|step_by)(::<.*>)?$|::retain(::<.*>)?$|::remove(::<.*>)?$", c_.q)]
+    cx.ob("C05.R1", "outputs:all-declared", len(accs) >= 2 and not flt,
+          "Node::outputs returns every declared output of the node (the list the admission check runs over)%s" % (
+              "" if not flt else " - but it drops some (`%s`): an action that omits such a key is admitted" % short_name(flt[0].q)), (flt or [None])[0].loc if flt else (accs[0].loc() if accs else None))
     # (d) unknown process
     g = m.one(r"^acts::scheduler::runtime::Runtime::do_action$")
     pc = [c for c in g.calls() if c.q.endswith("Process::do_action")]
@@ -184,7 +200,7 @@ def r1(cx):
         blocks = g.reach_from(none_t)
         err_on_none = any(b in blocks and k == "ERR_NEW" for b, k in g.exit_defs()) and pc[0].b not in blocks
     cx.ob("C05.R1", "unknown-process", some and err_on_none, "an action on a process that is neither cached nor stored returns an error", pc[0].loc)
-    cx.floor("C05.R1", 9)
+    cx.floor("C05.R1", 10)
 
 
 def T_const_variant(f, r):
